@@ -5,8 +5,11 @@
 (* largest gas limit that pays for k calls and no more.                              *)
 (*  quick:    every sequence of <= 3 calls + a seeded sample of sequences of 5;      *)
 (*  thorough: every sequence of <= 4 calls + a seeded sample of sequences of 5.      *)
-(*  both:     every sequence of <= 3 calls over Extra (upgrade, solicit, checkpoint, *)
-(*            write, yield): calls whose effects lie outside the abstract context.   *)
+(*  both:     every sequence of <= 2 calls over Extra (upgrade, solicit of a fresh /  *)
+(*            2-slot entry, forget of a 0/1/2/3-slot entry, checkpoint, write, yield) *)
+(*            and of 3 calls over ExtraCore: calls whose effects lie outside the      *)
+(*            abstract context (the 3-slot forget rewrites its slot list in place).   *)
+(*  endings:  halts with 0 / 5 / 32 and LONGER outputs (33, 200; thorough + 48, 64).  *)
 EXTENDS AccumulateInv, Json, SequencesExt
 CONSTANTS OutFile, Tier, Seed
 VARIABLE x
@@ -14,12 +17,14 @@ VARIABLE x
 Alpha == AlphabetOf(Tier)
 Seqs(n) == [1..n -> Alpha]
 Pick(S, m) == LET q == SetToSeq(S) IN {q[i] : i \in {j \in 1..Len(q) : (j + Seed) % m = 0}}
-Ends(n) == <<[kind |-> "halt0"], [kind |-> "halt32"], [kind |-> "halt5"], [kind |-> "trap"], [kind |-> "spin"]>>
+LongHalts == IF Tier = "quick" THEN <<[kind |-> "halt33"], [kind |-> "halt200"]>>
+             ELSE <<[kind |-> "halt33"], [kind |-> "halt48"], [kind |-> "halt64"], [kind |-> "halt200"]>>
+Ends(n) == <<[kind |-> "halt0"], [kind |-> "halt32"], [kind |-> "halt5"], [kind |-> "trap"], [kind |-> "spin"]>> \o LongHalts
            \o [i \in 1..(2 * (n + 1)) |-> [kind |-> "oog", k |-> (i - 1) \div 2, d |-> IF i % 2 = 1 THEN "min" ELSE "max"]]
 Short == UNION {Seqs(n) : n \in 0..(IF Tier = "quick" THEN 3 ELSE 4)}
 Long == IF Tier = "quick" THEN {s \o t : s \in Pick(Seqs(3), 41), t \in Pick(Seqs(2), 5)}
         ELSE {s \o t : s \in Pick(Seqs(4), 29), t \in Seqs(1)}
-Ext == UNION {[1..n -> Extra] : n \in 1..3}
+Ext == UNION {[1..n -> Extra] : n \in 1..2} \cup [1..3 -> ExtraCore]
 Cases == {[tag |-> "short", calls |-> s, ends |-> Ends(Len(s))] : s \in Short}
          \cup {[tag |-> "ext", calls |-> s, ends |-> Ends(Len(s))] : s \in Ext}
          \cup {[tag |-> "long", calls |-> s, ends |-> Ends(Len(s))] : s \in Long}
